@@ -339,8 +339,8 @@ chain_sym, chain_real = both(_chain_body)
 def _chain_cases(tier):
     out = []
     if tier == "quick":
-        out += [dict(mode="compose", layout=[4], K=2, upper=True, k1=2, k2=2), dict(mode="compose", layout=[5, 2], K=2, upper=False, k1=2, k2=2),
-                dict(mode="compose", layout=[6], K=2, upper=True, k1=2, k2=3), dict(mode="compose", layout=[6], K=2, upper=True, k1=3, k2=2)]
+        out += [dict(mode="compose", layout=[4], K=2, upper=True, k1=2, k2=2), dict(mode="compose", layout=[4, 1], K=1, upper=False, k1=2, k2=2),
+                dict(mode="compose", layout=[6], K=1, upper=True, k1=2, k2=3)]
         out += [dict(mode="commute", layout=[3], K=1, upper=True, k1=2), dict(mode="commute", layout=[2, 2], K=1, upper=True, k1=2),
                 dict(mode="commute", layout=[4], K=1, upper=False, k1=3)]
     else:
@@ -359,7 +359,7 @@ CHECKS.append(Check("chain", _chain_cases, chain_sym, chain_real,
                     doc="the composition and merge-commutation clauses executed end to end on symbolic collections: coarsen(k1) then coarsen(k2) "
                         "is the same collection as coarsen(k1*k2) on fixed-width bins; coarsen(merge(A,B)) is the same collection as "
                         "merge(coarsen(A), coarsen(B)); chunk size and merge buffer solver-chosen",
-                    bounds=dict(quick="n<=7 bins, <=2 chromosomes, K<=2 pixels per input, (k1,k2) in {(2,2),(2,3),(3,2)}, merge of 2 inputs",
+                    bounds=dict(quick="n<=6 bins, <=2 chromosomes, K<=2 pixels, (k1,k2) in {(2,2),(2,3)}; commutation: merge of 2 inputs of 1 pixel, n<=4, factor 2..3",
                                 thorough="n<=8 bins, <=3 chromosomes, K<=3 (compose) / 2 per input (commute)"),
                     stubs=("E3 in-memory h5py model", "E4 pandas models", "E7 ordered map"),
                     outside=("variable-width bins for composition (the property states it for fixed-width bins)",), timeout=3000, split_depth=8))
